@@ -188,18 +188,11 @@ theorem c06i_maxSeqsFromIdoms_coreFamily (g : Graph) (s t : Node) (si ti : IdomT
 /-- **the maximal safe sequences are a `CoreFamily`** -/
 theorem c06i_maxSafeSeqs_coreFamily (g : Graph) (hg : GraphWF g) (s t : Node) (X : List Edge)
     (seqs : List (List Edge)) (h : maxSafeSeqs g s t X = .ok seqs) : CoreFamily g s t seqs := by
-  unfold maxSafeSeqs at h
-  by_cases hX : X.isEmpty = true
-  · rw [if_pos hX] at h; injection h with h; subst h
-    exact c06i_coreFamily_of_aligned g s t [] [] List.nodup_nil c06i_Aligned.nil
-  · rw [if_neg hX] at h
-    split at h
-    · rename_i si ti htab
-      obtain ⟨hs, ht⟩ := idomTables_sound g hg s t _ _ _ _ _ _ _ htab (fun _ _ => Iff.rfl) (fun _ _ => Iff.rfl)
-        (fun e d hm => by simp at hm) (fun e d hm => by simp at hm)
-      exact c06i_maxSeqsFromIdoms_coreFamily g s t si ti
-        (fun e d hl => hs e d (lookup_mem _ _ _ hl)) (fun e d hl => ht e d (lookup_mem _ _ _ hl)) X seqs h
-    · cases h
-    · cases h
+  rcases maxSafeSeqs_cases g s t X seqs h with rfl | ⟨es, X', si, ti, _, htab, hm⟩
+  · exact c06i_coreFamily_of_aligned g s t [] [] List.nodup_nil c06i_Aligned.nil
+  · obtain ⟨hs, ht⟩ := idomTables_sound g hg s t _ _ _ _ _ _ _ htab (fun _ _ => Iff.rfl) (fun _ _ => Iff.rfl)
+      (fun e d hm => by simp at hm) (fun e d hm => by simp at hm)
+    exact c06i_maxSeqsFromIdoms_coreFamily g s t si ti
+      (fun e d hl => hs e d (lookup_mem _ _ _ hl)) (fun e d hl => ht e d (lookup_mem _ _ _ hl)) X' seqs hm
 
 end FP.Safety
